@@ -5,11 +5,11 @@ from . import base
 ID = 'C03'
 LEVEL = 'exploration'
 PLAN = {
-    'quick': [('synth', 26000), ('synth_reuse', 5000), ('shipped', 800)],
-    'thorough': [('synth', 1000000), ('synth_reuse', 200000), ('shipped', 36000)],
+    'quick': [('synth', 26000), ('synth_reuse', 5000), ('synth_cli_solution', 3000), ('shipped', 800)],
+    'thorough': [('synth', 1000000), ('synth_reuse', 200000), ('synth_cli_solution', 100000), ('shipped', 36000)],
 }
 DEADLINE = {'quick': 200, 'thorough': 3300}
-PROBES = ['store-reused-after-edit', 'line-reattempted', 'partial-solution-checked', 'prompt-interleaved-with-computation']
+PROBES = ['solution-file-rewritten-over-older-one', 'store-reused-after-edit', 'line-reattempted', 'partial-solution-checked', 'prompt-interleaved-with-computation']
 ORACLES = {'H1', 'H2', 'C03.model', 'C03.stored'}
 ASSUMPTIONS = [
     'synthetic world: the model re-derives every value with its own interpreter context, name qualification and rounding',
@@ -22,7 +22,46 @@ RULE = ('generated form programs and simulated taxpayers under seeded attempt or
         'stale view); distinct = distinct attempt-trace digests among those')
 
 
+def eval_cli_solution(case, acc=None):
+    """`habutax solve --solution S` twice into the same file (an earlier return, then this one): the file must hold exactly
+    this run's solution - every value re-derivable from this run's inputs, nothing left over from the earlier one"""
+    import configparser
+    pre = case.get('prelude')
+    if pre:
+        simrun.execute_cli(pre, {'prompt': True, 'writeback': False, 'solution': True})
+    run = simrun.execute_cli(case, {'prompt': True, 'writeback': False, 'solution': True, 'keep_old_solution': bool(pre)})
+    fs = []
+    if run.outcome in ('solved', 'failed') and run.solution_file is not None:
+        r1 = simrun.model_for(case, run)
+        try:
+            cfg = configparser.ConfigParser(interpolation=None)
+            cfg.read_string(run.solution_file)
+            got = {f'{sec}.{k}': cfg.get(sec, k) for sec in cfg.sections() if sec != 'habutax' for k in cfg[sec]}
+        except configparser.Error as e:
+            return [simrun.F(ID, 'C03.file', 'unreadable', f'solution file is not well-formed: {type(e).__name__}: {str(e)[:150]}')]
+        want = {}
+        for q, nv in r1.values.items():
+            l = simrun.line_spec(case['world'], q)
+            if l is not None:
+                want[q] = simrun.expected_text(l, nv).strip()
+        if r1.verdict != 'abort' and {k: v.strip() for k, v in got.items()} != want:
+            extra = sorted(set(got) - set(want))
+            missing = sorted(set(want) - set(got))
+            diff = sorted(k for k in set(got) & set(want) if got[k].strip() != want[k])
+            fs.append(simrun.F(ID, 'C03.file', 'stale-or-wrong', f'solution file differs from the re-derived solution: extra {extra[:4]} '
+                                                               f'missing {missing[:4]} different {diff[:4]}'))
+        if acc is not None:
+            acc.count('probe:solution-file-rewritten-over-older-one')
+            acc.add('nontrivial', core.digest_int(['clisol', case['world'], sorted(run.supplied)]))
+    if acc is not None:
+        acc.steps += run.rec.attempts + run.rec.prompts
+        acc.count(f'outcome:cli-solution-{run.outcome}')
+    return fs
+
+
 def evaluate(case, engine, acc=None):
+    if engine == 'synth_cli_solution':
+        return eval_cli_solution(case, acc)
     if engine == 'synth_reuse':
         _, run, case, edits = simrun.execute_reuse(case, case.get('reuse_seed', 0))
         if acc is not None and edits:
@@ -60,6 +99,15 @@ def run_one(engine, seed, acc, tier):
         case['sched'] = [rng.randrange(1 << 32), rng.pick([1, 1, 3, 0])]
     if engine == 'synth_reuse':
         case['reuse_seed'] = seed
+    if engine == 'synth_cli_solution':
+        case['field_names'] = []
+        case['prompt'] = True
+        case['refuse_at'] = None
+        pre = gen.gen_case(core.h64('prelude', seed), clean=True)
+        pre['field_names'] = []
+        pre['prompt'] = True
+        pre['refuse_at'] = None
+        case['prelude'] = pre
     for f in evaluate(case, engine, acc):
         acc.violation(base.violation(ID, f, case, seed, engine))
 
